@@ -969,4 +969,41 @@ for ci in (req.get("only") or range(ncase)):
         import traceback
         runs.append({"i": ci, "device": c["devname"], "status": "driver_error", "detail": f"{type(e).__name__}: {str(e)[:200]}",
                      "trace": traceback.format_exc()[-600:]})
-print(json.dumps({"runs": runs, "wall": time.time() - T0}))
+
+# ---- dynamic wire allocation through the device pre-processing (device_resolve_dynamic_wires): the allocated work wire must be a
+# wire the circuit does not use, whatever the labels; reference = the same circuit with an explicit fresh wire "W"
+def _dyn_cases():
+    def c1(w):
+        qp.X(2); qp.RY(0.4, 0); qp.CNOT([0, w]); qp.X(w)
+    def m1():
+        return qp.expval(qp.Z(0)), qp.expval(qp.Z(2))
+    def c2(w):
+        qp.Hadamard(0); qp.X(w); qp.CNOT([w, 0])
+    def m2():
+        return qp.expval(qp.Z(0)), qp.expval(qp.Z(1))
+    def c3(w):
+        qp.RX(0.7, 5); qp.CNOT([5, 1]); qp.CNOT([1, w]); qp.S(w); qp.CNOT([1, w])
+    def m3():
+        return qp.probs(wires=[1, 5])
+    return [("gap-labels/no-device-wires", c1, m1, None), ("measured-only-wire/device-wires", c2, m2, [0, 1, 2]), ("gap-labels-2/no-device-wires", c3, m3, None),
+            ("measured-only-wire-2/device-wires", c2, m2, [1, 0, 3, 2])]
+
+
+dynamic = []
+for name, body, meas, dwires in _dyn_cases():
+    try:
+        def alloc():
+            with qp.allocate(1, state="zero", restored=False) as w:
+                body(w[0])
+            return meas()
+        def fresh():
+            body("W")
+            return meas()
+        got = qp.QNode(alloc, qp.device("default.qubit", wires=dwires))()
+        exp = qp.QNode(fresh, qp.device("default.qubit"))()
+        got = got if isinstance(got, tuple) else (got,)
+        exp = exp if isinstance(exp, tuple) else (exp,)
+        dynamic.append({"name": name, "err": float(max(np.max(np.abs(np.asarray(g) - np.asarray(e))) for g, e in zip(got, exp)))})
+    except Exception as e:
+        dynamic.append({"name": name, "err": None, "detail": f"{type(e).__name__}: {str(e)[:200]}"})
+print(json.dumps({"runs": runs, "dynamic": dynamic, "wall": time.time() - T0}))
